@@ -428,7 +428,9 @@ class Parser(ExprParser):
             # make sure nested scope is a namespaceNode
             tok = self.mustbe("ID")
             name = tok.value
-            ns = namespace.qualified_lookup(name)
+            # A template parameter (T::name) has no members to look up.
+            lookup = getattr(namespace, "qualified_lookup", None)
+            ns = lookup(name) if lookup else None
             if not ns:
                 self.error_msg(
                     "Symbol '{}' is not in namespace '{}'".format(
@@ -809,7 +811,8 @@ class Parser(ExprParser):
         self.mustbe("TEMPLATE")
         node = Template()
         name = self.mustbe("LT")
-        while self.token.typ != "GT":
+        # At least one parameter, no trailing comma.
+        while True:
             if self.have("TYPENAME"):
                 name = self.mustbe("ID").value
             elif self.have("CLASS"):
